@@ -40,6 +40,7 @@ def m4_copy_not_sharing(d):
     rep(d+SF, '''    shared_future() = default;''', '''    shared_future() = default;
     shared_future(shared_future &&) = default;
     shared_future &operator=(shared_future &&) = default;
+    shared_future &operator=(const shared_future &) = default;
     shared_future(const shared_future &o):_ptr(o._ptr?std::make_shared<future_internal>():nullptr) {}''')
 @mut
 def m5_old_inverted_init(d):
@@ -79,6 +80,37 @@ def m15_tracer_keeps_weak_only_when_no_waiters(d):
     rep(d+SF, '''       COCLS_VERIF_POINT("sf_set");
        _ptr = ptr;''', '''       COCLS_VERIF_POINT("sf_set");
        if (ptr.use_count() > 2) _ptr = ptr;''')
+@mut
+def m16_move_assign_leaks_old_state(d):
+    rep(d+SF, '''    shared_future() = default;''', '''    shared_future() = default;
+    shared_future(const shared_future &) = default;
+    shared_future(shared_future &&) = default;
+    shared_future &operator=(const shared_future &) = default;
+    shared_future &operator=(shared_future &&o) noexcept {
+        if (this != &o) new(&_ptr) std::shared_ptr<future_internal>(std::move(o._ptr));
+        return *this;
+    }''')
+@mut
+def m17_copy_assign_releases_before_copy(d):
+    rep(d+SF, '''    shared_future() = default;''', '''    shared_future() = default;
+    shared_future(const shared_future &) = default;
+    shared_future(shared_future &&) = default;
+    shared_future &operator=(shared_future &&) = default;
+    shared_future &operator=(const shared_future &o) {
+        _ptr.reset();
+        _ptr = o._ptr;
+        return *this;
+    }''')
+@mut
+def m18_copy_assign_keeps_old_state(d):
+    rep(d+SF, '''    shared_future() = default;''', '''    shared_future() = default;
+    shared_future(const shared_future &) = default;
+    shared_future(shared_future &&) = default;
+    shared_future &operator=(shared_future &&) = default;
+    shared_future &operator=(const shared_future &o) {
+        if (!_ptr) _ptr = o._ptr;
+        return *this;
+    }''')
 @mut
 def r1_preserving_rewrite(d):
     rep(d+SF, '''       if (!(ptr->operator co_await()).subscribe(&ptr->resolve_tracer)) {
